@@ -561,6 +561,8 @@ def process_fn_like(ex, sig, body, subs, idbase, ret_default="r"):
                 def _hh(l):
                     return hashlib.sha256(re.sub(r"\s+", " ", body[l["kw_start"]:l["head_end"]]).strip().encode()).hexdigest()[:8]
                 if _hh(lp) != opts["hh"]:
+                    if os.environ.get("VERIF_PIN_STRICT"):
+                        raise GenError("%s: loop %d: pinned header hash %s does not match ordinal (template line %d)" % (ex.name, n, opts["hh"], d.lineno))
                     cands = [l for l in loops if _hh(l) == opts["hh"]]
                     if len(cands) == 1:
                         lp = cands[0]
